@@ -64,7 +64,10 @@ FirstError(items) ==
 \* (trusted.rs) fixes the UPPER bound only; adaptors such as std::iter::Scan, which the crate
 \* marks trusted, announce a lower bound of 0.  A collector must size its allocation from the
 \* bound the contract fixes.
-Sources == {"exact", "scan", "scan_of_map", "rev_scan_free"}
+\* "trust_of_filter": the crate's own wrapper (to_trust) around a filter that keeps every item - the
+\* filter announces (0, n), the wrapper must announce (n, n): it is an ExactSizeIterator, and
+\* "trust_enum_rev" stacks enumerate().rev() on it, which reads len() (lower = upper demanded).
+Sources == {"exact", "scan", "scan_of_map", "rev_scan_free", "trust_of_filter", "trust_enum_rev"}
 Hint(sk, n) == IF sk \in {"scan", "scan_of_map"} THEN <<0, n>> ELSE <<n, n>>
 CollectorAlloc(sk, n) == Hint(sk, n)[2]
 CollectAllocOK == \A sk \in Sources, n \in 0..MaxN : CollectorAlloc(sk, n) = n
